@@ -10,6 +10,7 @@ import (
 	"os"
 	"os/exec"
 	"path/filepath"
+	"regexp"
 	"runtime"
 	"runtime/debug"
 	"sort"
@@ -193,6 +194,21 @@ func c25DiffClass(a, b []byte) string {
 		i++
 	}
 	head := a[:i]
+	// inside a code snippet line (<text class="text-mono">…</text>): same characters, different
+	// token boundaries / colours = the syntax highlighter tokenised the same text differently
+	if k := bytes.LastIndex(head, []byte(`<text class="text-mono"`)); k >= 0 && !bytes.Contains(head[k:], []byte("</text>")) {
+		strip := func(x []byte) string {
+			e := bytes.Index(x[k:], []byte("</text>"))
+			if e < 0 {
+				return ""
+			}
+			return string(c25TagRe.ReplaceAll(x[k:k+e], nil))
+		}
+		if ta, tb := strip(a), strip(b); ta != "" && ta == tb {
+			return "code-token-boundaries"
+		}
+		return "in-code-snippet"
+	}
 	lt := bytes.LastIndexByte(head, '<')
 	cls := "document"
 	if lt >= 0 {
@@ -209,6 +225,17 @@ func c25DiffClass(a, b []byte) string {
 		cls += ":length-differs"
 	}
 	return cls
+}
+
+var c25TagRe = regexp.MustCompile(`<[^>]*>`)
+
+// c25Sig: "C25.svg-differs:<phase>:<mode>:<where>", except that the one cause that is
+// independent of phase and mode (the highlighter's token boundaries) leads the signature.
+func c25Sig(phase, mode, where string) string {
+	if where == "code-token-boundaries" {
+		return "C25.svg-differs:code-token-boundaries:" + phase + ":" + mode
+	}
+	return "C25.svg-differs:" + phase + ":" + mode + ":" + where
 }
 
 func c25Context(a, b []byte) string {
@@ -302,7 +329,7 @@ func execC25(c run.Case) (res run.Result) {
 		seqOK++
 		res.Inc("renders_sequential")
 		if !bytes.Equal(ref, again) {
-			viol("C25.svg-differs", "C25.svg-differs:sequential:"+mode+":"+c25DiffClass(ref, again), fmt.Sprintf("two sequential renders differ: %s\n%s", c25Context(ref, again), in.Text))
+			viol("C25.svg-differs", c25Sig("sequential", mode, c25DiffClass(ref, again)), fmt.Sprintf("two sequential renders differ: %s\n%s", c25Context(ref, again), in.Text))
 		}
 	}
 	res.Inc("renders_sequential")
@@ -356,7 +383,7 @@ func execC25(c run.Case) (res run.Result) {
 			concOK++
 			res.Inc("renders_concurrent_self")
 			if !bytes.Equal(ref, outs[i]) {
-				viol("C25.svg-differs", "C25.svg-differs:concurrent:"+mode+":"+c25DiffClass(ref, outs[i]),
+				viol("C25.svg-differs", c25Sig("concurrent", mode, c25DiffClass(ref, outs[i])),
 					fmt.Sprintf("concurrent render (goroutine %d of %d, GOMAXPROCS %d) differs from the sequential one: %s\n%s", i, len(jobs), in.Procs, c25Context(ref, outs[i]), in.Text))
 			}
 			continue
@@ -370,7 +397,7 @@ func execC25(c run.Case) (res run.Result) {
 		if r0, ok := otherRef[j.other]; !ok {
 			otherRef[j.other] = outs[i]
 		} else if !bytes.Equal(r0, outs[i]) {
-			viol("C25.svg-differs", "C25.svg-differs:concurrent-bystander:dagre:"+c25DiffClass(r0, outs[i]),
+			viol("C25.svg-differs", c25Sig("concurrent-bystander", "dagre", c25DiffClass(r0, outs[i])),
 				fmt.Sprintf("two concurrent renders of the same bystander diagram differ (GOMAXPROCS %d): %s\n%s", in.Procs, c25Context(r0, outs[i]), jobs[i].text))
 		}
 	}
@@ -381,7 +408,7 @@ func execC25(c run.Case) (res run.Result) {
 	} else {
 		res.Inc("renders_after_others")
 		if !bytes.Equal(ref, last) {
-			viol("C25.svg-differs", "C25.svg-differs:after-others:"+mode+":"+c25DiffClass(ref, last),
+			viol("C25.svg-differs", c25Sig("after-others", mode, c25DiffClass(ref, last)),
 				fmt.Sprintf("the render after other diagrams were processed differs from the first render of the same input: %s\n%s", c25Context(ref, last), in.Text))
 		}
 	}
@@ -484,7 +511,7 @@ func c25CLI(res *run.Result, viol func(clause, sig, msg string), in c25In, mode 
 	for _, n := range names {
 		a, b := outs[0][n], outs[1][n]
 		if !bytes.Equal(a, b) {
-			viol("C25.svg-differs", "C25.svg-differs:cli:"+mode+":"+c25DiffClass(a, b), fmt.Sprintf("two fresh d2 processes produced different %s: %s\n%s", n, c25Context(a, b), in.Text))
+			viol("C25.svg-differs", c25Sig("cli", mode, c25DiffClass(a, b)), fmt.Sprintf("two fresh d2 processes produced different %s: %s\n%s", n, c25Context(a, b), in.Text))
 		}
 	}
 	res.Add("cli_files_compared", len(names))
@@ -494,7 +521,7 @@ func c25CLI(res *run.Result, viol func(clause, sig, msg string), in c25In, mode 
 		a := bytes.TrimSuffix(outs[0][names[0]], []byte("\n"))
 		res.Inc("cli_vs_inprocess_compared")
 		if !bytes.Equal(a, inproc) {
-			viol("C25.svg-differs", "C25.svg-differs:fresh-process-vs-long-lived:"+mode+":"+c25DiffClass(a, inproc),
+			viol("C25.svg-differs", c25Sig("fresh-process-vs-long-lived", mode, c25DiffClass(a, inproc)),
 				fmt.Sprintf("a fresh d2 process and the long-lived worker process render the same input differently: %s\n%s", c25Context(a, inproc), in.Text))
 		}
 	} else {
